@@ -311,8 +311,9 @@ def _locate_droplets_in_mask_cylindrical(mask: ScalarField) -> Emulsion:
             for droplet in candidates:
                 # correct for the additional padding of the array
                 droplet.position[2] -= grid.length
-                # check whether the droplet lies in the original box
-                if z_min <= droplet.position[2] <= z_max:
+                # check whether the droplet lies in the original box; the interval is
+                # half-open so only one periodic image of a droplet is retained
+                if z_min <= droplet.position[2] < z_max:
                     droplets.append(droplet)
 
             _logger.info("Kept %d central droplets.", len(droplets))
